@@ -450,6 +450,11 @@ func RunC03Random(k *fw.Case) {
 				tvS(id+3, &gen.CallE{Name: "sx.Sum", Args: []gen.Expr{il(int64(r.Intn(9))), smallNum(r, g, tU16)}}),
 				tvS(id+4, &gen.CallE{Name: "H.Pn.Bump", Args: []gen.Expr{smallNum(r, g, tI8)}}),
 				tvS(id+5, &gen.Ref{Name: "H.Pn.X"}),
+				// stores through a LOCAL that holds the injected object, one and two levels deep
+				&gen.Assign{Target: "lh", Op: "=", E: &gen.Ref{Name: "H"}},
+				&gen.Assign{Target: "lh.I16", Op: "=", E: il(int64(r.Intn(300)))},
+				&gen.Assign{Target: []string{"lh.In.X", "lh.Pn.X", "lh.In.W"}[r.Intn(3)], Op: "=", E: il(int64(r.Intn(100)))},
+				tvS(id+6, &gen.Ref{Name: "H.I16"}), tvS(id+7, &gen.Ref{Name: "H.In.X"}), tvS(id+8, &gen.Ref{Name: "lh.Pn.X"}),
 			}
 		case 0: // typed reads of injected data, incl. missing map keys
 			ru.key, ru.desc = "read", "typed reads of injected values"
